@@ -344,4 +344,78 @@ Proof.
   - intro x. cbn [stat_of]. unfold fupdN. destruct (N.eqb x v); [reflexivity|apply Hst].
 Qed.
 
+
+(* what every finished run returns: [finish] of a pair of logs that replays as a
+   path of the SIS generator *)
+Definition good_out (tmin : Q) (full : bool) (ni0 : nat) (out : simout) : Prop :=
+  exists lg, out = finish g tmin full ni0 lg /\ log_ok g (l_elog lg) (l_tlog lg) = true.
+
+(* the only calls: expovariate with a generator rate (recovery of a node, or
+   transmission along an EDGE), and the initial random.sample *)
+Definition gen_call (c : call) : Prop :=
+  match c with
+  | CExpo r => (exists v, r = rec_rate g gamma v) \/ (exists u v, mem v (gadj g u) = true /\ r = trans_rate g tau u v)
+  | CSample pop n => pop = map knode (gnodes g)
+  | _ => False
+  end.
+
+Lemma m_loop_inv : forall tmin full ni0 fuel s,
+  MInv s -> allSC (good_out tmin full ni0) gen_call (m_loop g tau gamma tmax tmin full ni0 fuel s).
+Proof.
+  intros tmin full ni0 fuel. induction fuel as [|f IH]; intros s Hi; cbn [m_loop].
+  - destruct (q_items (ms_q s)) as [|[[t c] e] rest]; cbn [allSC]; [|exact I].
+    exists (ms_log s). split; [reflexivity|apply (mi_log s Hi)].
+  - destruct (q_items (ms_q s)) as [|[[t c] e] rest] eqn:Eq; cbn [allSC].
+    { exists (ms_log s). split; [reflexivity|apply (mi_log s Hi)]. }
+    destruct e as [v|src tgt].
+    + apply IH. apply (recover_inv s t c v rest Hi Eq).
+    + destruct (MInv_pop s _ rest Hi Eq) as [Hp [Hsrc _]].
+      apply (m_trans_inv (good_out tmin full ni0) gen_call).
+      * intros u v Huv. right. exists u, v. split; [exact Huv|reflexivity].
+      * intro v. left. exists v. reflexivity.
+      * exact Hp.
+      * intros u ->. unfold src_ok in Hsrc. cbn [snd] in Hsrc. destruct Hsrc as [X1 [_ X3]]. split; assumption.
+      * intros s' Hs'. apply IH. exact Hs'.
+Qed.
+
+Lemma m_init_inv : forall tmin i0, MInv (m_init g tmax tmin i0).
+Proof.
+  intros tmin i0. unfold m_init.
+  assert (K : forall l q, MInv (mkM (fun _ => stS) (fun _ => Some (tmin - 1)) q (logs0 g tmin)) ->
+              MInv (mkM (fun _ => stS) (fun _ => Some (tmin - 1))
+                        (fold_left (fun q u => q_add tmax q tmin (MTrans None u)) l q) (logs0 g tmin))).
+  { induction l as [|u l IH]; intros q Hq; [exact Hq|]. cbn [fold_left]. apply IH.
+    destruct (MInv_add _ tmin (MTrans None u) Hq) as [H1 _]; [intros _; exact I|intros v Hv; discriminate Hv|exact H1]. }
+  apply K. constructor; cbn; try constructor; try reflexivity.
+Qed.
+
+Theorem fsis_valid_path_and_rates : forall i0 rho tmin full fuel ds out tr,
+  exec (fast_SIS g tau gamma tmax i0 rho tmin full fuel) ds [] = (out, tr) ->
+  Forall gen_call tr /\
+  (forall o, out = Ok o -> exists ni0, good_out tmin full ni0 o).
+Proof.
+  intros i0 rho tmin full fuel ds out tr H.
+  assert (HA : allSC (fun o => exists ni0, good_out tmin full ni0 o) gen_call (fast_SIS g tau gamma tmax i0 rho tmin full fuel)).
+  { unfold fast_SIS, with_initial.
+    assert (K : forall l, allSC (fun o => exists ni0, good_out tmin full ni0 o) gen_call
+                            (m_loop g tau gamma tmax tmin full (length l) fuel (m_init g tmax tmin l))).
+    { intro l. pose proof (m_loop_inv tmin full (length l) fuel _ (m_init_inv tmin l)) as K0.
+      revert K0. generalize (m_loop g tau gamma tmax tmin full (length l) fuel (m_init g tmax tmin l)).
+      intro m. induction m as [a0|e|r0 k IH|p kt IHt kf IHf|ps k IH|w c k IH|c k IH|pop n k IH]; cbn [allSC]; intro K0.
+      - exists (length l). exact K0.
+      - exact I.
+      - destruct K0 as [Hc Hk]. split; [exact Hc|intro d; apply IH; apply Hk].
+      - destruct K0 as [Hc [H1 H2]]. repeat split; [exact Hc|apply IHt; exact H1|apply IHf; exact H2].
+      - destruct K0 as [Hc Hk]. split; [exact Hc|intro d; apply IH; apply Hk].
+      - exact K0.
+      - destruct K0 as [Hc Hk]. split; [exact Hc|intro d; apply IH; apply Hk].
+      - destruct K0 as [Hc Hk]. split; [exact Hc|intro d; apply IH; apply Hk]. }
+    destruct rho as [r|], i0 as [l|]; cbn [allSC]; try exact I; try apply K.
+    - destruct (Z.ltb _ 0); cbn [allSC]; [exact I|]. split; [reflexivity|intro ks; apply K].
+    - split; [reflexivity|intro ks; apply K]. }
+  destruct (allSC_split _ _ _ _ HA) as [HS HC]. split.
+  - eapply (exec_allC _ gen_call); [exact HC|constructor|exact H].
+  - intros o ->. apply (exec_allS _ (fun o => exists ni0, good_out tmin full ni0 o) _ ds [] o tr HS H).
+Qed.
+
 End FS.
